@@ -456,6 +456,10 @@ func (e *Env) evalBinary(n EBinary) tv {
 			return tv{Sc{T: app("bvugt", SBool, A, B)}, boolT}
 		case ">=":
 			return tv{Sc{T: app("bvuge", SBool, A, B)}, boolT}
+		case "+":
+			return tv{Sc{T: app("bvadd", A.Sort, A, B)}, a.t} // wraps like the Go operation
+		case "-":
+			return tv{Sc{T: app("bvsub", A.Sort, A, B)}, a.t}
 		}
 		A, B = BV2Int(A), BV2Int(B)
 	}
